@@ -8,6 +8,7 @@ import (
 	"go/ast"
 	"go/parser"
 	"go/token"
+	"go/types"
 	"os"
 	"path/filepath"
 	"strings"
@@ -21,6 +22,10 @@ type target struct {
 	lean   string // Lean name
 	params string // Lean parameter list (overrides the Go one)
 	drop   int    // number of leading Go parameters dropped (e.g. an unused store)
+	ret    string // Lean result type ("" = Bool)
+	arith  string // integer arithmetic of non-constant operands: "" / "u32" (wraps mod 2^32), "u64" (wraps mod 2^64), "nat" (Go int assumed non-negative, no overflow; subtraction unsupported)
+	except bool   // the last Go result is an error: `nil` -> .ok (other results), an error variable -> .error "Name"
+	kind   string // "" = whole function body; "bftGuards", "prevoteThreshold", "commitGuards" = fragment extraction (see below)
 }
 
 var targets = []target{
@@ -33,6 +38,11 @@ var targets = []target{
 	{file: "pkg/consensus/forkchoice/fork_choice.go", recv: "forkChoice", name: "IsTieBreak", lean: "fcIsTieBreak", params: "(c : FC)"},
 	{file: "pkg/consensus/forkchoice/fork_choice.go", recv: "forkChoice", name: "IsDifferentChain", lean: "fcIsDifferentChain", params: "(c : FC)"},
 	{file: "pkg/consensus/liskbft/api.go", recv: "API", name: "HeaderHasPriority", lean: "headerHasPriority", params: "(header : Hdr) (height maxHeightPrevoted maxHeightPreviouslyForged : Nat)"},
+	{file: "pkg/codec/reader.go", name: "varintShortestSize", lean: "varintShortestSize", params: "(data : Nat)", ret: "Nat", arith: "u64"},
+	{file: "pkg/codec/key.go", name: "readKey", lean: "readKey", params: "(val : Nat)", ret: "Except String (Nat × Nat)", arith: "nat", except: true},
+	{file: "pkg/consensus/liskbft/api.go", recv: "API", name: "SetBFTParameters", lean: "setBFTParametersGuards", params: "(aggregateBFTWeight precommitThreshold certificateThreshold : Nat)", arith: "u64", kind: "bftGuards"},
+	{file: "pkg/consensus/liskbft/api.go", recv: "API", name: "SetBFTParameters", lean: "prevoteThresholdOf", params: "(aggregateBFTWeight : Nat)", ret: "Nat", arith: "u64", kind: "prevoteThreshold"},
+	{file: "pkg/consensus/certificate.go", recv: "Executer", name: "verifyAggregateCommit", lean: "aggregateCommitGuards", params: "(empty : Bool) (height mhc mhpc : Nat) (nextFound : Bool) (heightNext : Nat) (bitsEmpty sigEmpty : Bool)", ret: "Nat", arith: "u32", kind: "commitGuards"},
 }
 
 // methods of the receiver that are translated (others become opaque fields of the record)
@@ -57,9 +67,13 @@ func lowerFirst(s string) string {
 }
 
 type tr struct {
-	fset *token.FileSet
-	recv string // receiver variable name
-	err  error
+	fset    *token.FileSet
+	recv    string // receiver variable name
+	err     error
+	arith   string            // see target.arith
+	except  bool              // see target.except
+	subst   map[string]string // source text of a sub-expression that is a given parameter -> Lean parameter name
+	allowed map[string]bool   // if non-nil: the only identifiers a translated fragment may mention
 }
 
 func (t *tr) fail(n ast.Node, msg string) string {
@@ -70,8 +84,62 @@ func (t *tr) fail(n ast.Node, msg string) string {
 }
 
 const u32 = "4294967296"
+const u64 = "18446744073709551616"
+
+// modulus of the wrapping integer arithmetic ("" for Go int treated as an unbounded natural)
+func (t *tr) modulus() string {
+	switch t.arith {
+	case "u64":
+		return u64
+	case "nat":
+		return ""
+	}
+	return u32
+}
+
+// constValue returns the defining expression of a file-level integer constant
+func constValue(id *ast.Ident) ast.Expr {
+	if id.Obj == nil || id.Obj.Kind != ast.Con {
+		return nil
+	}
+	vs, ok := id.Obj.Decl.(*ast.ValueSpec)
+	if !ok {
+		return nil
+	}
+	for i, n := range vs.Names {
+		if n.Name == id.Name && i < len(vs.Values) {
+			return vs.Values[i]
+		}
+	}
+	return nil
+}
+
+// isConstExpr: integer literals and file-level constants combined with << * + (Go evaluates such
+// untyped constant expressions exactly, without wrap-around)
+func isConstExpr(e ast.Expr) bool {
+	switch x := e.(type) {
+	case *ast.BasicLit:
+		return x.Kind == token.INT
+	case *ast.ParenExpr:
+		return isConstExpr(x.X)
+	case *ast.Ident:
+		v := constValue(x)
+		return v != nil && isConstExpr(v)
+	case *ast.BinaryExpr:
+		switch x.Op {
+		case token.SHL, token.MUL, token.ADD:
+			return isConstExpr(x.X) && isConstExpr(x.Y)
+		}
+	}
+	return false
+}
 
 func (t *tr) expr(e ast.Expr) string {
+	if t.subst != nil {
+		if s, ok := t.subst[types.ExprString(e)]; ok {
+			return s
+		}
+	}
 	switch x := e.(type) {
 	case *ast.ParenExpr:
 		return "(" + t.expr(x.X) + ")"
@@ -79,6 +147,15 @@ func (t *tr) expr(e ast.Expr) string {
 		switch x.Name {
 		case "true", "false":
 			return x.Name
+		}
+		if v := constValue(x); v != nil {
+			if !isConstExpr(v) {
+				return t.fail(e, "constant "+x.Name+" is not an integer constant expression")
+			}
+			return t.expr(v)
+		}
+		if t.allowed != nil && !t.allowed[x.Name] {
+			return t.fail(e, "identifier "+x.Name+" is not a parameter of the extracted fragment")
 		}
 		return x.Name
 	case *ast.BasicLit:
@@ -93,6 +170,16 @@ func (t *tr) expr(e ast.Expr) string {
 		return t.fail(e, "unary "+x.Op.String())
 	case *ast.BinaryExpr:
 		a, b := t.expr(x.X), t.expr(x.Y)
+		if isConstExpr(x) {
+			switch x.Op {
+			case token.SHL:
+				return "(" + a + " <<< " + b + ")"
+			case token.MUL:
+				return "(" + a + " * " + b + ")"
+			case token.ADD:
+				return "(" + a + " + " + b + ")"
+			}
+		}
 		switch x.Op {
 		case token.LAND:
 			return "(" + a + " && " + b + ")"
@@ -111,7 +198,33 @@ func (t *tr) expr(e ast.Expr) string {
 		case token.NEQ:
 			return "decide (" + a + " ≠ " + b + ")"
 		case token.ADD:
-			return "((" + a + " + " + b + ") % " + u32 + ")"
+			if m := t.modulus(); m != "" {
+				return "((" + a + " + " + b + ") % " + m + ")"
+			}
+			return "(" + a + " + " + b + ")"
+		case token.MUL:
+			if m := t.modulus(); m != "" {
+				return "((" + a + " * " + b + ") % " + m + ")"
+			}
+			return "(" + a + " * " + b + ")"
+		case token.SUB:
+			if m := t.modulus(); m != "" {
+				return "((" + a + " + " + m + " - " + b + ") % " + m + ")"
+			}
+			return t.fail(e, "subtraction on Go int")
+		case token.QUO:
+			// division by a non-zero constant only (a zero divisor panics in Go)
+			if isConstExpr(x.Y) && b != "0" {
+				return "(" + a + " / " + b + ")"
+			}
+			return t.fail(e, "division by a non-constant")
+		case token.AND:
+			return "(" + a + " &&& " + b + ")"
+		case token.SHR:
+			if isConstExpr(x.Y) {
+				return "(" + a + " >>> " + b + ")"
+			}
+			return t.fail(e, "shift by a non-constant")
 		}
 		return t.fail(e, "binary "+x.Op.String())
 	case *ast.SelectorExpr:
@@ -172,6 +285,27 @@ func (t *tr) stmts(list []ast.Stmt, indent string) string {
 		if len(x.Results) == 0 {
 			return t.fail(s, "bare return")
 		}
+		if t.except {
+			// (v1, …, vn, error): `nil` -> .ok (v1, …, vn); an error variable -> .error "Name"
+			if len(x.Results) < 2 {
+				return t.fail(s, "result without error")
+			}
+			id, ok := x.Results[len(x.Results)-1].(*ast.Ident)
+			if !ok {
+				return t.fail(s, "error result is not an identifier")
+			}
+			if id.Name != "nil" {
+				return indent + ".error \"" + id.Name + "\""
+			}
+			vals := []string{}
+			for _, r := range x.Results[:len(x.Results)-1] {
+				vals = append(vals, t.expr(r))
+			}
+			if len(vals) == 1 {
+				return indent + ".ok " + vals[0]
+			}
+			return indent + ".ok (" + strings.Join(vals, ", ") + ")"
+		}
 		if len(x.Results) == 2 {
 			if id, ok := x.Results[1].(*ast.Ident); !ok || id.Name != "nil" {
 				return t.fail(s, "non-nil error result")
@@ -227,8 +361,219 @@ func (t *tr) stmts(list []ast.Stmt, indent string) string {
 			}
 		}
 		return t.fail(s, "if body")
+	case *ast.SwitchStmt:
+		// expression-less switch: `switch { case c1: …return  case c2, c3: …return  default: …return }`
+		if x.Init != nil || x.Tag != nil {
+			return t.fail(s, "switch with init/tag")
+		}
+		out := ""
+		hasDefault := false
+		for i, c := range x.Body.List {
+			cc, ok := c.(*ast.CaseClause)
+			if !ok {
+				return t.fail(c, "switch clause")
+			}
+			if len(cc.Body) == 0 {
+				return t.fail(c, "empty case body")
+			}
+			if _, ok := cc.Body[len(cc.Body)-1].(*ast.ReturnStmt); !ok {
+				return t.fail(c, "case body not ending in return")
+			}
+			if cc.List == nil {
+				if i != len(x.Body.List)-1 {
+					return t.fail(c, "default clause that is not last")
+				}
+				hasDefault = true
+				out += t.stmts(cc.Body, indent)
+				break
+			}
+			conds := []string{}
+			for _, ce := range cc.List {
+				conds = append(conds, t.expr(ce))
+			}
+			cond := conds[0]
+			if len(conds) > 1 {
+				cond = "(" + strings.Join(conds, " || ") + ")"
+			}
+			out += indent + "if " + cond + " then\n" + t.stmts(cc.Body, indent+"  ") + "\n" + indent + "else\n"
+			indent += "  "
+		}
+		if !hasDefault {
+			out += t.stmts(rest, indent)
+		}
+		return out
 	}
 	return t.fail(s, fmt.Sprintf("statement %T", s))
+}
+
+// ---- fragment extraction -------------------------------------------------------------------
+
+// mentions reports whether identifier name occurs in e
+func mentions(e ast.Node, name string) bool {
+	found := false
+	ast.Inspect(e, func(n ast.Node) bool {
+		if id, ok := n.(*ast.Ident); ok && id.Name == name {
+			found = true
+		}
+		return !found
+	})
+	return found
+}
+
+// guardReturn classifies the body of a guard `if cond { return … }`:
+// "errorf" = return fmt.Errorf(…), "nil" = return nil, "err" = return err (propagation), "" = anything else
+func guardReturn(is *ast.IfStmt) string {
+	if is.Init != nil || is.Else != nil || len(is.Body.List) != 1 {
+		return ""
+	}
+	rs, ok := is.Body.List[0].(*ast.ReturnStmt)
+	if !ok || len(rs.Results) != 1 {
+		return ""
+	}
+	switch r := rs.Results[0].(type) {
+	case *ast.Ident:
+		if r.Name == "nil" || r.Name == "err" {
+			return r.Name
+		}
+	case *ast.CallExpr:
+		if se, ok := r.Fun.(*ast.SelectorExpr); ok {
+			if id, ok := se.X.(*ast.Ident); ok && id.Name == "fmt" && se.Sel.Name == "Errorf" {
+				return "errorf"
+			}
+		}
+	}
+	return ""
+}
+
+// bftGuards: the top-level statements `if <cond mentioning aggregateBFTWeight> { return fmt.Errorf(…) }`
+// of API.SetBFTParameters (exactly two: precommit and certificate threshold); result = both pass.
+func (t *tr) bftGuards(fd *ast.FuncDecl) (string, string) {
+	t.allowed = map[string]bool{"aggregateBFTWeight": true, "precommitThreshold": true, "certificateThreshold": true}
+	conds := []string{}
+	for _, s := range fd.Body.List {
+		is, ok := s.(*ast.IfStmt)
+		if !ok || !mentions(is.Cond, "aggregateBFTWeight") {
+			continue
+		}
+		if guardReturn(is) != "errorf" {
+			return t.fail(is, "threshold guard that does not return fmt.Errorf"), ""
+		}
+		conds = append(conds, t.expr(is.Cond))
+	}
+	if len(conds) != 2 {
+		return t.fail(fd, fmt.Sprintf("expected 2 threshold guards, found %d", len(conds))), ""
+	}
+	return "  ((!" + conds[0] + ") && (!" + conds[1] + "))", " — the two threshold guards `if … { return fmt.Errorf(…) }` on aggregateBFTWeight, in order; true = both pass (uint64 arithmetic)"
+}
+
+// prevoteThreshold: the value of field prevoteThreshold in the composite literal BFTParams{…}
+func (t *tr) prevoteThreshold(fd *ast.FuncDecl) (string, string) {
+	t.allowed = map[string]bool{"aggregateBFTWeight": true}
+	var vals []ast.Expr
+	ast.Inspect(fd.Body, func(n ast.Node) bool {
+		cl, ok := n.(*ast.CompositeLit)
+		if !ok {
+			return true
+		}
+		if id, ok := cl.Type.(*ast.Ident); !ok || id.Name != "BFTParams" {
+			return true
+		}
+		for _, el := range cl.Elts {
+			if kv, ok := el.(*ast.KeyValueExpr); ok {
+				if k, ok := kv.Key.(*ast.Ident); ok && k.Name == "prevoteThreshold" {
+					vals = append(vals, kv.Value)
+				}
+			}
+		}
+		return true
+	})
+	if len(vals) != 1 {
+		return t.fail(fd, fmt.Sprintf("expected 1 prevoteThreshold field in a BFTParams literal, found %d", len(vals))), ""
+	}
+	return "  " + t.expr(vals[0]), " — field prevoteThreshold of the BFTParams composite literal (uint64 arithmetic)"
+}
+
+// commitGuards: the guards of Executer.verifyAggregateCommit up to the block lookup
+// (GetBlockHeaderByHeight). Results of the impure calls (GetBFTHeights, NextHeightBFTParameters,
+// aggregateCommit.Empty(), len(field) == 0) are the given parameters; `if err != nil … { return err }`
+// propagates the error of such a call and is not a guard. Result = 1-based index of the first guard
+// whose condition holds (0 = none).
+func (t *tr) commitGuards(fd *ast.FuncDecl) (string, string, string) {
+	if len(fd.Type.Params.List) != 2 || len(fd.Type.Params.List[1].Names) != 1 {
+		return t.fail(fd, "parameter list of verifyAggregateCommit"), "", ""
+	}
+	ac := fd.Type.Params.List[1].Names[0].Name
+	t.subst = map[string]string{
+		ac + ".Empty()":                             "empty",
+		ac + ".Height":                              "height",
+		"maxHeightCertified":                        "mhc",
+		"maxHeightPrecommited":                      "mhpc",
+		"len(" + ac + ".AggregationBits) == 0":      "bitsEmpty",
+		"len(" + ac + ".CertificateSignature) == 0": "sigEmpty",
+		"err == nil":                                "nextFound",
+		"heightNextBFTParams":                       "heightNext",
+	}
+	t.allowed = map[string]bool{}
+	given := map[string]bool{"_": true, "err": true, "maxHeightCertified": true, "maxHeightPrecommited": true, "heightNextBFTParams": true}
+	conds, kinds := []string{}, []string{}
+	done := false
+	for _, s := range fd.Body.List {
+		switch x := s.(type) {
+		case *ast.AssignStmt:
+			// results of an impure call: either the given parameters, or the end of the guard section
+			if len(x.Rhs) != 1 {
+				return t.fail(s, "assignment in the guard section"), "", ""
+			}
+			ce, ok := x.Rhs[0].(*ast.CallExpr)
+			if !ok {
+				return t.fail(s, "assignment in the guard section"), "", ""
+			}
+			if se, ok := ce.Fun.(*ast.SelectorExpr); ok && se.Sel.Name == "GetBlockHeaderByHeight" {
+				done = true
+				break
+			}
+			for _, l := range x.Lhs {
+				id, ok := l.(*ast.Ident)
+				if !ok || !given[id.Name] {
+					return t.fail(s, "assignment to a variable that is not a given parameter"), "", ""
+				}
+			}
+		case *ast.IfStmt:
+			switch k := guardReturn(x); k {
+			case "err":
+				// error propagation of an impure call: the condition must start with `err != nil`
+				c := types.ExprString(x.Cond)
+				if c != "err != nil" && !strings.HasPrefix(c, "err != nil && ") {
+					return t.fail(s, "return err under a condition other than err != nil"), "", ""
+				}
+			case "nil", "errorf":
+				conds = append(conds, t.expr(x.Cond))
+				kinds = append(kinds, "\""+map[string]string{"nil": "nil", "errorf": "error"}[k]+"\"")
+			default:
+				return t.fail(s, "if statement that is not a guard"), "", ""
+			}
+		default:
+			return t.fail(s, fmt.Sprintf("statement %T in the guard section", s)), "", ""
+		}
+		if done {
+			break
+		}
+	}
+	if !done {
+		return t.fail(fd, "end of the guard section (GetBlockHeaderByHeight) not found"), "", ""
+	}
+	if len(conds) == 0 {
+		return t.fail(fd, "no guards found"), "", ""
+	}
+	body := ""
+	indent := "  "
+	for i, c := range conds {
+		body += fmt.Sprintf("%sif %s then\n%s  %d\n%selse\n", indent, c, indent, i+1, indent)
+		indent += "  "
+	}
+	body += indent + "0"
+	extra := fmt.Sprintf("/-- what the guards of `%s` return, in order: \"nil\" = the commit is accepted without further checks, \"error\" = rejected -/\ndef %sReturns : List String := [%s]\n\n", "aggregateCommitGuards", "aggregateCommitGuards", strings.Join(kinds, ", "))
+	return body, " — the guards `if cond { return … }` before the block lookup, in order; results of impure calls are the parameters; value = index of the first guard that fires, 0 = none (uint32 arithmetic)", extra
 }
 
 func findFunc(f *ast.File, recv, name string) *ast.FuncDecl {
@@ -293,16 +638,33 @@ func main() {
 			fmt.Fprintf(os.Stderr, "fngen: %s: function %s.%s not found\n", tg.file, tg.recv, tg.name)
 			os.Exit(1)
 		}
-		t := &tr{fset: fset}
+		t := &tr{fset: fset, arith: tg.arith, except: tg.except}
 		if fd.Recv != nil && len(fd.Recv.List[0].Names) == 1 {
 			t.recv = fd.Recv.List[0].Names[0].Name
 		}
-		body := t.stmts(fd.Body.List, "  ")
+		body, note, extra := "", "", ""
+		switch tg.kind {
+		case "":
+			body = t.stmts(fd.Body.List, "  ")
+		case "bftGuards":
+			body, note = t.bftGuards(fd)
+		case "prevoteThreshold":
+			body, note = t.prevoteThreshold(fd)
+		case "commitGuards":
+			body, note, extra = t.commitGuards(fd)
+		default:
+			fmt.Fprintf(os.Stderr, "fngen: unknown target kind %q\n", tg.kind)
+			os.Exit(1)
+		}
 		if t.err != nil {
 			fmt.Fprintln(os.Stderr, "fngen:", t.err)
 			os.Exit(1)
 		}
-		fmt.Fprintf(&b, "/-- %s: %s%s -/\ndef %s %s : Bool :=\n%s\n\n", tg.file, map[bool]string{true: "(*" + tg.recv + ").", false: ""}[tg.recv != ""], tg.name, tg.lean, tg.params, body)
+		ret := tg.ret
+		if ret == "" {
+			ret = "Bool"
+		}
+		fmt.Fprintf(&b, "/-- %s: %s%s%s -/\ndef %s %s : %s :=\n%s\n\n%s", tg.file, map[bool]string{true: "(*" + tg.recv + ").", false: ""}[tg.recv != ""], tg.name, note, tg.lean, tg.params, ret, body, extra)
 	}
 	// the order in which Executer.process evaluates the fork choice predicates
 	f, err := parser.ParseFile(fset, filepath.Join(repo, "pkg/consensus/execute.go"), nil, 0)
